@@ -9,6 +9,7 @@ import Verif.Properties.C01Move
 #print axioms C01.naming_move_preserves_meaning
 #print axioms C01.nameWith_preserves_meaning
 #print axioms C01.retarget_preserves_meaning
+#print axioms C01.inline_preserves_meaning
 #print axioms C01.rewriteSchemaToRef_is_setAt
 #print axioms C01.tiny_targetsOK
 #print axioms C01.tiny_stable
